@@ -219,6 +219,9 @@ fn resynth() -> Result<(), ()> {
         .exit();
     }
 
+    /* output files of this invocation: two inputs must not write the same one */
+    let mut outputs: Vec<PathBuf> = Vec::new();
+
     for (i, input) in in_args.enumerate() {
         let p = Path::new(input);
         let out = if use_filenames {
@@ -243,6 +246,20 @@ fn resynth() -> Result<(), ()> {
             out.set_extension("pcap");
             Cow::Owned(out)
         };
+
+        if outputs.iter().any(|o| o == out.as_ref()) {
+            /* e.g. a/x.rsyn b/x.rsyn: the second would silently replace (or, failing, delete)
+             * the capture of the first */
+            print!("{}: ", p.display());
+            error!(stdout, "error");
+            println!(
+                ": process_file: output file {} is already used by another input",
+                out.display()
+            );
+            ret = Err(());
+            continue;
+        }
+        outputs.push(out.to_path_buf());
 
         let result = process_file(&mut stdout, p, &out, verbose);
 
